@@ -8,8 +8,11 @@ import (
 	"path/filepath"
 
 	"github.com/thomasjungblut/go-sstables/memstore"
+	"github.com/thomasjungblut/go-sstables/recordio"
+	rProto "github.com/thomasjungblut/go-sstables/recordio/proto"
 	"github.com/thomasjungblut/go-sstables/skiplist"
 	"github.com/thomasjungblut/go-sstables/sstables"
+	"google.golang.org/protobuf/proto"
 )
 
 // input of the memstore engine: abstract programs + a concretization of ranks/tokens to bytes
@@ -217,4 +220,105 @@ func capEst(x uint64) int {
 		return 10000000
 	}
 	return int(x)
+}
+
+// ---- engine "memflush": memstore.Flush / FlushWithTombstones while the stream writer's data or index writer fails at a position (C11)
+
+type memflushCase struct {
+	Entries [][2]any `json:"entries"` // [rank, token|"NIL"]
+	Tomb    bool     `json:"tomb"`
+	Which   string   `json:"which"` // data | index
+	Pos     int      `json:"pos"`
+}
+
+type memflushIn struct {
+	Keys  []string          `json:"keys"`
+	Vals  map[string]string `json:"vals"`
+	Dir   string            `json:"dir"`
+	Cases []memflushCase    `json:"cases"`
+}
+
+func init() { register("memflush", runMemflush) }
+
+type countingFailData struct {
+	recordio.WriterI
+	n, at int
+	hit   *bool
+}
+
+func (f *countingFailData) Write(r []byte) (uint64, error) {
+	if f.n == f.at {
+		f.n++
+		*f.hit = true
+		return 0, errors.New("injected data append failure")
+	}
+	f.n++
+	return f.WriterI.Write(r)
+}
+
+type countingFailIndex struct {
+	rProto.WriterI
+	n, at int
+	hit   *bool
+}
+
+func (f *countingFailIndex) Write(m proto.Message) (uint64, error) {
+	if f.n == f.at {
+		f.n++
+		*f.hit = true
+		return 0, errors.New("injected index append failure")
+	}
+	f.n++
+	return f.WriterI.Write(m)
+}
+
+func runMemflush(args []string) error {
+	var in memflushIn
+	if err := readJSON(args[0], &in); err != nil {
+		return err
+	}
+	tr, err := newTrace(args[1])
+	if err != nil {
+		return err
+	}
+	defer tr.close()
+	keys := make([][]byte, len(in.Keys))
+	for i, h := range in.Keys {
+		keys[i] = unhex(h)
+	}
+	for ci, c := range in.Cases {
+		ms := memstore.NewMemStore()
+		for _, e := range c.Entries {
+			k := keys[int(e[0].(float64))]
+			if tok := e[1].(string); tok == "NIL" {
+				ms.Tombstone(k)
+			} else {
+				ms.Upsert(k, unhex(in.Vals[tok]))
+			}
+		}
+		hit := false
+		sstables.VerifOnWriterOpen = func(w *sstables.SSTableStreamWriter) {
+			if c.Which == "data" {
+				w.VerifWrapWriters(func(d recordio.WriterI) recordio.WriterI { return &countingFailData{WriterI: d, at: c.Pos, hit: &hit} }, nil)
+			} else {
+				w.VerifWrapWriters(nil, func(i rProto.WriterI) rProto.WriterI { return &countingFailIndex{WriterI: i, at: c.Pos, hit: &hit} })
+			}
+		}
+		dir := filepath.Join(in.Dir, fmt.Sprintf("mf%d", ci))
+		os.MkdirAll(dir, 0o700)
+		var ferr error
+		if c.Tomb {
+			ferr = ms.FlushWithTombstones(sstables.WriteBasePath(dir))
+		} else {
+			ferr = ms.Flush(sstables.WriteBasePath(dir))
+		}
+		sstables.VerifOnWriterOpen = nil
+		es := ""
+		if ferr != nil {
+			es = ferr.Error()
+		}
+		tr.emit(M{"t": "memflush", "case": ci, "hit": hit, "err": es})
+		os.RemoveAll(dir)
+	}
+	return nil
 }
